@@ -181,9 +181,9 @@ package router
 //@   aftercall cacheKey?: gkey = ret0
 //@   aftercall unpackCacheMsg?: gm = ret0
 //@   oncall SubtractTTL?: nSub = nSub + 1
-//@   assumecall unpackCacheMsg?: ret1 == nil ==> noOPT(ret0.Additionals) && distinctRecs(ret0) && (ret0.Additionals == nil || fresh(ret0.Additionals)) && len(ret0.Questions) <= 65535 && len(ret0.Answers) <= 65535 && len(ret0.Authorities) <= 65535 && len(ret0.Additionals) <= 65535
+//@   assumecall unpackCacheMsg?: ret1 == nil ==> len(ret0.Questions) <= 1 && noOPT(ret0.Additionals) && distinctRecs(ret0) && (ret0.Additionals == nil || fresh(ret0.Additionals)) && len(ret0.Questions) <= 65535 && len(ret0.Answers) <= 65535 && len(ret0.Authorities) <= 65535 && len(ret0.Additionals) <= 65535
 //@   modifies rc.Response.IpMark
-//@   ensures m != nil ==> fresh(m) && wfMsg(m) && noOPT(m.Additionals) && (m.Additionals == nil || fresh(m.Additionals)) && len(m.Questions) <= 65535 && len(m.Answers) <= 65535 && len(m.Authorities) <= 65535 && len(m.Additionals) <= 65535
+//@   ensures m != nil ==> fresh(m) && wfMsg(m) && len(m.Questions) <= 1 && noOPT(m.Additionals) && (m.Additionals == nil || fresh(m.Additionals)) && len(m.Questions) <= 65535 && len(m.Answers) <= 65535 && len(m.Authorities) <= 65535 && len(m.Additionals) <= 65535
 //@   ensures [C08:served-copy-is-aged-once] m != nil ==> nSub == 1 && m == gm
 //@   callsite ipMark: [C07:client-group-of-this-client] arg1 == rc.RemoteAddr.ip
 //@   callsite cacheKey?: [C07:key-of-this-question-and-group] arg0 == q && arg1 == gmark
@@ -271,6 +271,7 @@ package router
 //@   requires r.queryCacheHitTotal != nil && r.prefetch != nil && r.prefetch.queue != nil && r.logger != nil && r.prefetchTotal != nil && r.ctx != nil
 //@   modifies rc.Response.Msg, rc.Response.RuleIdx, rc.Response.Cached, rc.Response.IpMark, obj(r.prefetch.queue)
 //@   ensures rc.Response.Msg != nil && fresh(rc.Response.Msg) && wfMsg(rc.Response.Msg)
+//@   ensures [C03:at-most-one-question] len(rc.Response.Msg.Questions) <= 1
 //@   ensures [C12:no-upstream-opt] noOPT(rc.Response.Msg.Additionals)
 //@   ensures rc.Response.Msg.Additionals == nil || fresh(rc.Response.Msg.Additionals)
 //@   ensures len(rc.Response.Msg.Questions) <= 65535 && len(rc.Response.Msg.Answers) <= 65535 && len(rc.Response.Msg.Authorities) <= 65535 && len(rc.Response.Msg.Additionals) <= 65535
@@ -301,7 +302,7 @@ package router
 //@   ensures [C03:header] rc.Response.Msg.ID == old(m.ID) && rc.Response.Msg.Response && rc.Response.Msg.OpCode == old(m.OpCode)
 //@             && rc.Response.Msg.RecursionAvailable && rc.Response.Msg.RecursionDesired == old(m.RecursionDesired)
 //@   ensures [C03:notimp] old(unsupported(m)) ==> rc.Response.Msg.RCode == dnsmsg.RCodeNotImplemented && emptyResp(rc.Response.Msg)
-//@   ensures [C03:one-question] len(rc.Response.Msg.Questions) <= 1 || !old(unsupported(m))
+//@   ensures [C03:one-question] len(rc.Response.Msg.Questions) <= 1
 //@   ensures [C12:opt-iff-query-opt] !old(unsupported(m)) && !old(hasOPT(m.Additionals)) ==> noOPT(rc.Response.Msg.Additionals)
 //@   ensures [C12:own-opt-last] !old(unsupported(m)) && old(hasOPT(m.Additionals)) ==> len(rc.Response.Msg.Additionals) >= 1
 //@             && isOPT(rc.Response.Msg.Additionals[len(rc.Response.Msg.Additionals)-1])
